@@ -94,8 +94,8 @@ def rule_compress(ctx):
             ctx.violated('R2', fi, 'values = ' + T.show(vals)[:140], 'values.compress(boolarray, axis=pos) with pos resolved from `axis`', node=p.node)
             continue
         newax = ('sub', ('sub', ('attr', SELF, 'axes'), pos), BOOL)
-        oka = axes[0] == 'comp' and axes[2][0] == 'ifexp' and axes[2][3] == newax and axes[2][2] == ('elem', ('attr', SELF, 'axes'), axes[3][0][0]) \
-            and axes[2][1] == T.mkcmp('!=', ('attr', axes[2][2], 'name'), dim)
+        oka = axes[0] == 'comp' and axes[2][0] == 'ifexp' and axes[2][2] == newax and axes[2][3] == ('elem', ('attr', SELF, 'axes'), axes[3][0][0]) \
+            and axes[2][1] == T.mkcmp('==', ('attr', axes[2][3], 'name'), dim)            # canonical: ifexp(a == b, when equal, otherwise)
         if not oka:
             ctx.violated('R2', fi, 'axes = ' + T.show(axes)[:160], 'the compressed axis is self.axes[pos][boolarray] (same mask, same position), placed by the name of the same resolution',
                          node=p.node)
